@@ -1,1 +1,523 @@
-/- C17 — property theorems (stub: the slice is not built yet). -/
+import GB.C17.Proofs
+/-
+  C17 — no client input can crash or hang a handler.  PROPERTY THEOREMS.
+
+  PARTIAL BY NATURE.  The full statement — "for all byte strings in every client-controlled position
+  of HTTP, WebSocket, gRPC-Web and gRPC-WebSocket requests the handler neither panics nor hangs and
+  answers with a well-formed response; invalid JSON / parameters on transcoded routes get 4xx" —
+  quantifies over net/http, gws, protojson, grpc-gateway and the Go runtime, none of which is modelled.
+  What is PROVED here, for ALL inputs, is that the Go partial operations of the small client-facing
+  cores this slice owns cannot fault (index / slice bounds with Go's signed arithmetic, closing a
+  channel twice, a `strings.Cut` loop running forever), that every decode failure a client can cause
+  is wrapped to InvalidArgument ⇒ HTTP 400, and that a case the driver accepts satisfies each clause
+  of the property.  The decode cores owned by other slices (C03 routing, C04 population, C08 framing,
+  C09 JSON codec, C13 WebSocket intake, C14 names, C19 dispatch, C12 timeout) prove their own
+  no-panic theorems; everything else is covered by the fuzz correspondence only (props/C17.json).
+-/
+open GB GB.C17
+
+set_option linter.unusedSimpArgs false
+set_option linter.unusedVariables false
+
+/-! ### no Go partial operation can fault -/
+
+/-- `webbridge.parseMetadataQuery`: `k[len(param)+1 : len(k)-1]` is in bounds for every parameter name and key. -/
+theorem C17_mdkey_no_panic (param k : Bytes) : ∃ r, mdKey param k = .ok r := by
+  unfold mdKey
+  generalize (if param.isEmpty then defaultMetadataParam else param) = p
+  unfold mdKeyWith
+  split
+  · exact ⟨_, rfl⟩
+  · rename_i h
+    simp only [Bool.not_eq_true', Bool.and_eq_false_iff, not_or, Bool.not_eq_false] at h
+    have hlen := prefix_suffix_length k p h.1 h.2
+    obtain ⟨mk, hmk⟩ := goSlice_ok k ((p.length : Int) + 1) ((k.length : Int) - 1) (by omega)
+    rw [hmk]
+    simp only [bind, Except.bind]
+    split <;> exact ⟨_, rfl⟩
+
+/-- gRPC-WebSocket `OnMessage`: `data[0]` and `data[6:]` are in bounds for every frame in every state. -/
+theorem C17_gws_onmessage_no_panic (closed : Bool) (data : Bytes) : ∃ r, gwsOnMessage closed data = .ok r := by
+  unfold gwsOnMessage
+  split
+  · exact ⟨_, rfl⟩
+  · by_cases h0 : data.length > 0
+    · obtain ⟨b, hb⟩ := goIndex_ok data 0 (by omega) (by omega)
+      by_cases h6 : data.length > 6
+      · obtain ⟨d, hd⟩ := goSlice_ok data 6 data.length (by omega)
+        simp [h0, h6, hb, goSliceFrom, hd, bind, Except.bind, pure, Except.pure]
+      · simp [h0, h6, hb, bind, Except.bind, pure, Except.pure]
+    · have : data.length = 0 := by omega
+      simp [this, bind, Except.bind, pure, Except.pure]
+
+/-- What `OnMessage` delivers: exactly `data[6:]` when the frame is longer than 6 bytes, nothing otherwise;
+    the stream is closed iff the flow-control byte is 1. -/
+theorem C17_gws_onmessage_spec (data : Bytes) (o : GwsOut) (h : gwsOnMessage false data = .ok o) :
+    o.closed = (data.head? == some 1) ∧ o.closeEvents = o.closed ∧
+    (o.delivered.isSome ↔ data.length > 6) ∧ (∀ d e, o.delivered = some (d, e) → d = data.drop 6 ∧ e = false) := by
+  unfold gwsOnMessage at h
+  simp only [Bool.false_eq_true, ↓reduceIte] at h
+  by_cases h0 : data.length > 0
+  · obtain ⟨b, hb⟩ := goIndex_ok data 0 (by omega) (by omega)
+    have hb' : data.head? = some b := by
+      unfold goIndex at hb
+      cases data with
+      | nil => simp at h0
+      | cons x xs => simp at hb; simp [hb]
+    by_cases h6 : data.length > 6
+    · obtain ⟨d, hd⟩ := goSlice_ok data 6 data.length (by omega)
+      have hd' : d = data.drop 6 := by
+        unfold goSlice at hd
+        split at hd
+        · injection hd with hd; rw [← hd]; simp
+        · cases hd
+      simp [h0, h6, hb, goSliceFrom, hd, bind, Except.bind, pure, Except.pure] at h
+      subst h
+      simp [hb', hd', h6]
+    · simp [h0, h6, hb, bind, Except.bind, pure, Except.pure] at h
+      subst h
+      simp [hb', h6]
+  · have hz : data = [] := by cases data with | nil => rfl | cons _ _ => simp at h0
+    subst hz
+    simp [bind, Except.bind, pure, Except.pure] at h
+    subst h
+    simp
+
+/-- A whole gRPC-WebSocket session never closes `events` twice, whatever the client sends in whatever order. -/
+theorem C17_gws_session_no_double_close (frames : List Bytes) : ∃ r, gwsSession false false frames = .ok r := by
+  suffices h : ∀ (frames : List Bytes) (closed evClosed : Bool), (evClosed = true → closed = true) →
+      ∃ r, gwsSession closed evClosed frames = .ok r from h frames false false (by simp)
+  intro frames
+  induction frames with
+  | nil => intro c e _; exact ⟨_, rfl⟩
+  | cons d rest ih =>
+    intro closed evClosed inv
+    unfold gwsSession
+    obtain ⟨o, ho⟩ := C17_gws_onmessage_no_panic closed d
+    rw [ho]
+    simp only [bind, Except.bind]
+    cases hc : closed with
+    | true =>
+      -- a closed stream ignores the frame: nothing is closed again
+      have : o = { closed := true, delivered := none, closeEvents := false } := by
+        rw [hc] at ho; unfold gwsOnMessage at ho; simpa using ho.symm
+      subst this
+      simp only [Bool.false_eq_true, ↓reduceIte]
+      exact ih true evClosed (by simp)
+    | false =>
+      have hev : evClosed = false := by
+        cases evClosed with
+        | false => rfl
+        | true => have := inv rfl; rw [hc] at this; cases this
+      obtain ⟨_, h2, _, _⟩ := C17_gws_onmessage_spec d o (by rw [hc] at ho; exact ho)
+      subst hev
+      by_cases hce : o.closeEvents = true
+      · simp only [hce, ↓reduceIte, Bool.false_eq_true]
+        exact ih o.closed true (by intro _; rw [← h2]; exact hce)
+      · simp only [hce, Bool.false_eq_true, ↓reduceIte]
+        exact ih o.closed false (by simp)
+
+/-- The transcoded WebSocket `OnMessage` closes `events` at most once for every binding shape and any number of frames. -/
+theorem C17_ws_session_no_double_close (cs body : Bool) (n : Nat) : ∃ r, wsSession cs body false false n = .ok r := by
+  suffices h : ∀ (n : Nat) (ar ev : Bool), (ev = true → ar = true ∧ cs = false) →
+      ∃ r, wsSession cs body ar ev n = .ok r from h n false false (by simp)
+  intro n
+  induction n with
+  | zero => intro ar ev _; exact ⟨_, rfl⟩
+  | succ n ih =>
+    intro ar ev inv
+    unfold wsSession
+    cases cs <;> cases body <;> cases ar <;> cases ev <;> first
+      | (exfalso; simp at inv; done)
+      | exact ih _ _ (by simp)
+
+/-- gRPC-Web `recv`: the header and body slices are in bounds for every request body. -/
+theorem C17_gwrecv_no_panic (body : Bytes) : ∃ r, gwRecv body = .ok r := by
+  unfold gwRecv
+  split
+  · exact ⟨_, rfl⟩
+  · split
+    · exact ⟨_, rfl⟩
+    · rename_i h0 h5
+      have h5' : 5 ≤ body.length := by omega
+      obtain ⟨hd, hhd⟩ := goSlice_ok body 0 5 (by omega)
+      obtain ⟨rest, hrest⟩ := goSlice_ok body 5 body.length (by omega)
+      have hhdlen : hd.length = 5 := by
+        unfold goSlice at hhd
+        split at hhd
+        · injection hhd with e; rw [← e]; simp; omega
+        · cases hhd
+      obtain ⟨lb, hlb⟩ := goSlice_ok hd 1 5 (by omega)
+      simp only [goSliceTo, goSliceFrom, hhd, hrest, hlb, bind, Except.bind]
+      split
+      · exact ⟨_, rfl⟩
+      · split
+        · exact ⟨_, rfl⟩
+        · rename_i hn
+          obtain ⟨data, hdata⟩ := goSlice_ok rest 0 (min (be32 lb) maxRecv : Nat) (by omega)
+          rw [hdata]
+          exact ⟨_, rfl⟩
+
+/-- `PatternRouter.RouteHTTP`: `path[1:]`, `pathComponents[len-1]`, `last[:verbIdx]`, `last[verbIdx+1:]` and the
+    assignment to `matchComponents[len-1]` are in bounds for every path and every pattern verb. -/
+theorem C17_route_slices_no_panic (path verb : Bytes) : ∃ r, routeSlices path verb = .ok r := by
+  unfold routeSlices
+  split
+  · exact ⟨_, rfl⟩
+  · rename_i hp
+    have hp' : hasPrefix path [47] = true := by simpa using hp
+    have hlen := prefix_length path [47] hp'
+    simp only [List.length_cons, List.length_nil] at hlen
+    obtain ⟨p1, hp1⟩ := goSlice_ok path 1 path.length (by omega)
+    simp only [goSliceFrom, hp1, bind, Except.bind]
+    have hpos := splitSlash_length_pos p1
+    obtain ⟨last, hlast⟩ := goIndexL_ok (splitSlash p1) (((splitSlash p1).length : Int) - 1) (by omega) (by omega)
+    rw [hlast]
+    simp only
+    -- verbIdx > 0 only arises from the suffix branch, where verbIdx = len(last) - len(verb) - 1
+    have hvi : verbIndex last verb > 0 → verbIndex last verb + 1 ≤ last.length := by
+      unfold verbIndex
+      split
+      · rename_i hsuf
+        have hs := suffix_length last (58 :: verb) hsuf.2
+        simp only [List.length_cons] at hs
+        intro _; omega
+      · intro h; omega
+    generalize verbIndex last verb = vi at hvi
+    unfold routeSlicesAt
+    split
+    · exact ⟨_, rfl⟩
+    · split
+      · rename_i hgt
+        have := hvi hgt
+        obtain ⟨a, ha⟩ := goSlice_ok last 0 vi (by omega)
+        obtain ⟨v, hv⟩ := goSlice_ok last (vi + 1) last.length (by omega)
+        simp only [goSliceTo, goSliceFrom, ha, hv, hlast, bind, Except.bind]
+        exact ⟨_, rfl⟩
+      · exact ⟨_, rfl⟩
+
+/-- `routing.parseRPCName`: `rpcName[0]` and `rpcName[1:]` are in bounds for every name. -/
+theorem C17_parse_rpc_name_no_panic (name : Bytes) : ∃ r, parseRPCName name = .ok r := by
+  unfold parseRPCName
+  by_cases h0 : name.length > 0
+  · obtain ⟨b, hb⟩ := goIndex_ok name 0 (by omega) (by omega)
+    obtain ⟨t, ht⟩ := goSlice_ok name 1 name.length (by omega)
+    simp only [h0, ↓reduceIte, hb, bind, Except.bind, pure, Except.pure]
+    cases hb47 : (b == 47)
+    · simp only [Bool.false_eq_true, ↓reduceIte]; exact ⟨_, rfl⟩
+    · simp only [↓reduceIte, goSliceFrom, ht]; exact ⟨_, rfl⟩
+  · simp only [h0, ↓reduceIte, bind, Except.bind, pure, Except.pure]
+    exact ⟨_, rfl⟩
+
+/-- `grpcadapter.decodeTimeout`: `s[size-1]`, every `s[i]` of the digit loop and `s[:size-1]` are in bounds. -/
+theorem C17_decode_timeout_no_panic (s : Bytes) : ∃ r, decodeTimeoutIdx s = .ok r := by
+  unfold decodeTimeoutIdx
+  simp only
+  split
+  · exact ⟨_, rfl⟩
+  · rename_i h
+    have h2 : 2 ≤ s.length ∧ s.length ≤ 9 := by omega
+    obtain ⟨u, hu⟩ := goIndex_ok s ((s.length : Int) - 1) (by omega) (by omega)
+    obtain ⟨okd, hokd⟩ := checkDigitsLoop_ok s (s.length - 1) 0 (by omega) (by omega)
+    obtain ⟨t, ht⟩ := goSlice_ok s 0 ((s.length : Int) - 1) (by omega)
+    rw [hu]
+    simp only [bind, Except.bind]
+    cases hd : GB.C12.timeoutUnitToDuration u with
+    | none => exact ⟨_, rfl⟩
+    | some d =>
+      simp only [hokd, goSliceTo, ht]
+      cases okd <;> exact ⟨_, rfl⟩
+
+/-- `ProxyMDFilter.filterRequest`: `k[:len(prefix)]`, `k[len(prefix):]`, `k[len(k)-len(suffix):]` are in bounds
+    for every allow-listed key and every configured prefix. -/
+theorem C17_filter_key_no_panic (k pfx : Bytes) : ∃ r, filterKey k pfx = .ok r := by
+  have bin_ok : ∀ k1 : Bytes, ∃ r, isBinKey k1 = .ok r := by
+    intro k1
+    unfold isBinKey
+    split
+    · rename_i h
+      obtain ⟨t, ht⟩ := goSlice_ok k1 ((k1.length : Int) - binSuffix.length) k1.length (by omega)
+      simp only [goSliceFrom, ht, bind, Except.bind, pure, Except.pure]
+      exact ⟨_, rfl⟩
+    · exact ⟨_, rfl⟩
+  have strip_ok : ∃ r, stripGw k pfx = .ok r := by
+    unfold stripGw
+    split
+    · rename_i hk
+      obtain ⟨h, hh⟩ := goSlice_ok k 0 gwPrefix.length (by omega)
+      obtain ⟨t, ht⟩ := goSlice_ok k gwPrefix.length k.length (by omega)
+      simp only [goSliceTo, goSliceFrom, hh, ht, bind, Except.bind, pure, Except.pure]
+      cases eqFold h gwPrefix <;> exact ⟨_, rfl⟩
+    · exact ⟨_, rfl⟩
+  obtain ⟨k1, hk1⟩ := strip_ok
+  obtain ⟨b, hb⟩ := bin_ok k1
+  unfold filterKey
+  simp only [hk1, hb, bind, Except.bind, pure, Except.pure]
+  exact ⟨_, rfl⟩
+
+/-- `transcoding.traverseFieldPath`: the `strings.Cut` loop terminates (never runs out of `len(path)+1` iterations)
+    for every path and every description. -/
+theorem C17_traverse_terminates (lookup : Nat → Bytes → Option FieldKind) (root : Nat) (path : Bytes) :
+    ∃ r, traverseFieldPath lookup root path = .ok r := by
+  unfold traverseFieldPath
+  split
+  · exact ⟨_, rfl⟩
+  · suffices h : ∀ (fuel : Nat) (m : Nat) (lastFd : Option Bytes) (p : Bytes), p.length < fuel →
+        ∃ r, traverseLoop lookup fuel m lastFd p = .ok r from h _ root none path (by omega)
+    intro fuel
+    induction fuel with
+    | zero => intro m l p h; omega
+    | succ fuel ih =>
+      intro m lastFd p hlen
+      unfold traverseLoop
+      cases hc : cutDot p with
+      | mk elem rf =>
+        cases rf with
+        | mk rest found =>
+          simp only
+          split
+          · split <;> exact ⟨_, rfl⟩
+          · split
+            · exact ⟨_, rfl⟩
+            · split
+              · exact ⟨_, rfl⟩
+              · split
+                · exact ⟨_, rfl⟩
+                · rename_i hrest
+                  split
+                  · -- recursion on `rest`: it is non-empty, so the separator was found, so it is shorter
+                    have hl := cutDot_rest_length p
+                    have hnf := cutDot_notfound_rest p
+                    rw [hc] at hl hnf
+                    simp only at hl hnf
+                    have hfound : found = true := by
+                      cases found with
+                      | true => rfl
+                      | false => have := hnf rfl; simp [this] at hrest
+                    have := hl.2 hfound
+                    exact ih _ _ _ (by omega)
+                  · exact ⟨_, rfl⟩
+
+/-! ### invalid input ⇒ InvalidArgument ⇒ HTTP 400 -/
+
+/-- Every decode failure a CLIENT can cause (body rejected by the marshaler, EOF of a streamed body, a path or
+    query parameter that does not parse) reaches the client as InvalidArgument, i.e. HTTP 400 — for the
+    one-shot and the streaming transcoder alike. -/
+theorem C17_invalid_input_400 (supportsEOF : Bool) (f : DecodeFailure) (h : f ≠ .bodyPath) :
+    recvHTTPStatus supportsEOF f = some 400 := by
+  cases f <;> cases supportsEOF <;> first | rfl | exact absurd rfl h
+
+/-- The only 5xx `transcodeFunc` itself produces is for a body path that does not resolve in the BINDING
+    (a description error, not client input). -/
+theorem C17_body_path_is_the_only_5xx (supportsEOF : Bool) (f : DecodeFailure) :
+    (∃ s, recvHTTPStatus supportsEOF f = some s ∧ 500 ≤ s) ↔ f = .bodyPath := by
+  cases f <;> cases supportsEOF <;> simp [recvHTTPStatus, requestTranscodingError, wrapTranscodingError, transcodeFuncErr, httpStatusFromCode]
+
+/-- `requestTranscodingError`: nil stays nil, a direct status error keeps its code, anything else becomes
+    InvalidArgument (never a 5xx by default); `responseTranscodingError` defaults to Internal. -/
+theorem C17_wrap_transcoding_error (e : Err) :
+    (requestTranscodingError e = none ↔ e = .nil) ∧
+    (∀ c, e = .status c → requestTranscodingError e = some c) ∧
+    (e = .plain → (requestTranscodingError e).map httpStatusFromCode = some 400) ∧
+    (e = .plain → (responseTranscodingError e).map httpStatusFromCode = some 500) := by
+  cases e <;> simp [requestTranscodingError, responseTranscodingError, wrapTranscodingError, httpStatusFromCode]
+
+/-- The HTTP mapping never leaves the range of valid status codes, and is a 5xx exactly for the six server-side codes. -/
+theorem C17_http_status_range (c : Code) :
+    200 ≤ httpStatusFromCode c ∧ httpStatusFromCode c < 600 ∧
+    (500 ≤ httpStatusFromCode c ↔ c = .unknown ∨ c = .deadlineExceeded ∨ c = .unimplemented ∨ c = .internal ∨ c = .unavailable ∨ c = .dataLoss) := by
+  cases c <;> simp [httpStatusFromCode]
+
+/-- `websocketError` only produces close codes that may be sent on the wire. -/
+theorem C17_websocket_error_code_valid (e : WsErr) : validCloseCode (websocketError e).1 = true := by
+  cases e <;> rfl
+
+/-- `truncateCloseReason`: `reason[cut]` and `reason[:cut]` are in bounds, the result fits a close frame
+    (≤ 123 bytes next to the 2-byte code) and is a prefix of the reason.  (That the cut falls on a character
+    boundary is `utf8.RuneStart`'s contract; the differential op and the fuzz check the result is valid UTF-8.) -/
+theorem C17_close_reason_fits (reason : Bytes) :
+    ∃ r, truncateCloseReason reason = .ok r ∧ r.length ≤ 123 ∧ r <+: reason := by
+  unfold truncateCloseReason maxCloseReasonLen
+  split
+  · rename_i h; exact ⟨reason, rfl, h, List.prefix_refl _⟩
+  · rename_i h
+    obtain ⟨cut, hcut, hle⟩ := backToRuneStart_ok reason 123 (by omega)
+    rw [hcut]
+    simp only [bind, Except.bind, goSliceTo, goSlice]
+    have hc : (0 : Int) ≤ 0 ∧ (0 : Int) ≤ (cut : Int) ∧ (cut : Int) ≤ reason.length := by omega
+    rw [if_pos hc]
+    refine ⟨_, rfl, ?_, ?_⟩
+    · simp; omega
+    · simp; exact List.take_prefix _ _
+
+/-! ### what an accepted case means (the judgement is the property) -/
+
+/-- An in-process case the driver accepts is not a panic, not a hang, and — unless net/http itself refused
+    the request — has valid headers, a body that is well-formed for its protocol, a 4xx answer whenever the
+    request was invalid on a transcoded route, and for gRPC-Web: 200 with exactly one trailer frame carrying
+    a grpc-status. -/
+theorem C17_accepted_http (c : HttpCase) (h : httpViolations c = []) :
+    c.res = .reject ∨
+    (c.res = .ok ∧ c.headersValid = true ∧ c.wellFormed = true ∧
+      (invalidOnTranscodedRoute c = true → is4xx c.status = true ∨ (c.hasTimeout = true ∧ c.status = 504)) ∧
+      (c.entry = .grpcweb → c.status = 200 ∧ c.ct = .grpcweb ∧ c.trailers = 1 ∧ c.grpcStatus.isSome = true) ∧
+      (c.entry = .http → 200 ≤ c.status ∧ c.status < 600)) := by
+  unfold httpViolations at h
+  cases hr : c.res with
+  | reject => left; rfl
+  | panic => rw [hr] at h; simp at h
+  | hang => rw [hr] at h; simp at h
+  | ok =>
+    right
+    rw [hr] at h
+    simp only [List.append_eq_nil_iff] at h
+    obtain ⟨⟨hhv, hent⟩, hinv⟩ := h
+    have hv : c.headersValid = true := by
+      cases hh : c.headersValid with
+      | true => rfl
+      | false => simp [hh] at hhv
+    have hinv' : invalidOnTranscodedRoute c = true → is4xx c.status = true ∨ (c.hasTimeout = true ∧ c.status = 504) := by
+      intro hi
+      simp only [hi, Bool.true_and] at hinv
+      by_cases hcond : (is4xx c.status || (c.hasTimeout && c.status == 504)) = true
+      · simp only [Bool.or_eq_true, Bool.and_eq_true, beq_iff_eq] at hcond
+        exact hcond
+      · simp [hcond] at hinv
+    cases he : c.entry with
+    | grpcweb =>
+      rw [he] at hent
+      simp only [List.append_eq_nil_iff] at hent
+      obtain ⟨⟨⟨⟨h1, h2⟩, h3⟩, h4⟩, h5⟩ := hent
+      have e1 : c.status = 200 := by
+        by_cases hx : c.status = 200
+        · exact hx
+        · simp [hx] at h1
+      have e2 : c.ct = .grpcweb := by
+        by_cases hx : c.ct = .grpcweb
+        · exact hx
+        · simp [hx] at h2
+      have e3 : c.wellFormed = true := by
+        cases hx : c.wellFormed with
+        | true => rfl
+        | false => simp [hx] at h3
+      have e4 : c.trailers = 1 := by
+        by_cases hx : c.trailers = 1
+        · exact hx
+        · simp [hx] at h4
+      have e5 : c.grpcStatus.isSome = true := by
+        cases hx : c.grpcStatus with
+        | some _ => rfl
+        | none => simp [hx] at h5
+      exact ⟨rfl, hv, e3, hinv', fun _ => ⟨e1, e2, e4, e5⟩, (by intro hc; cases hc)⟩
+    | http =>
+      rw [he] at hent
+      simp only [List.append_eq_nil_iff] at hent
+      obtain ⟨⟨h1, h2⟩, h3⟩ := hent
+      have e1 : 200 ≤ c.status ∧ c.status < 600 := by
+        by_cases hx : (decide (200 ≤ c.status) && decide (c.status < 600)) = true
+        · simpa using hx
+        · simp [hx] at h1
+      have e2 : c.wellFormed = true := by
+        cases hx : c.wellFormed with
+        | true => rfl
+        | false => simp [hx] at h2
+      exact ⟨rfl, hv, e2, hinv', (by intro hc; cases hc), fun _ => e1⟩
+    | ws =>
+      rw [he] at hent
+      simp only [List.append_eq_nil_iff] at hent
+      have e2 : c.wellFormed = true := by
+        cases hx : c.wellFormed with
+        | true => rfl
+        | false => simp [hx] at hent
+      exact ⟨rfl, hv, e2, hinv', (by intro hc; cases hc), (by intro hc; cases hc)⟩
+    | grpcws =>
+      rw [he] at hent
+      simp only [List.append_eq_nil_iff] at hent
+      have e2 : c.wellFormed = true := by
+        cases hx : c.wellFormed with
+        | true => rfl
+        | false => simp [hx] at hent
+      exact ⟨rfl, hv, e2, hinv', (by intro hc; cases hc), (by intro hc; cases hc)⟩
+
+/-- A socket session the driver accepts is not a panic and not a hang (the handler returned after the client
+    left); after a successful upgrade every server message is well-formed, no malformed frame was seen, the close
+    reason is UTF-8 and the close code is legal; a gRPC-WebSocket call the server ended normally carries its
+    final trailer; and an invalid first message on a transcoded stream was reported as a client error. -/
+theorem C17_accepted_ws (c : WsCase) (h : wsViolations c = []) :
+    c.res = .reject ∨
+    (c.res = .ok ∧ (c.handshake = 101 →
+      c.messagesWF = true ∧ c.closeReasonUTF8 = true ∧ c.close ≠ .proto ∧ (∀ k, c.close = .code k → validCloseCode k = true) ∧
+      (c.grpcws = true → c.fin = .wait → c.clientInterfered = false → c.close = .code 1000 → c.lastIsTrailer = true) ∧
+      (wsMustReportInvalid c = true →
+        (c.close = .code 1001 ∧ c.reasonCode = some "InvalidArgument") ∨ c.close = .code 1007 ∨ c.close = .code 1003))) := by
+  unfold wsViolations at h
+  cases hr : c.res with
+  | reject => left; rfl
+  | panic => rw [hr] at h; simp at h
+  | hang => rw [hr] at h; simp at h
+  | ok =>
+    right
+    refine ⟨rfl, ?_⟩
+    intro hs
+    rw [hr] at h
+    simp only [hs, bne_self_eq_false, Bool.false_eq_true, ↓reduceIte, List.append_eq_nil_iff] at h
+    obtain ⟨⟨⟨⟨h1, h2⟩, h3⟩, h4⟩, h5⟩ := h
+    have e1 : c.messagesWF = true := by
+      cases hx : c.messagesWF with
+      | true => rfl
+      | false => simp [hx] at h1
+    have e2 : c.closeReasonUTF8 = true := by
+      cases hx : c.closeReasonUTF8 with
+      | true => rfl
+      | false => simp [hx] at h2
+    have e3 : c.close ≠ .proto := by
+      intro hx; rw [hx] at h3; simp at h3
+    have e4 : ∀ k, c.close = .code k → validCloseCode k = true := by
+      intro k hk
+      rw [hk] at h3
+      cases hv : validCloseCode k with
+      | true => rfl
+      | false => simp [hv] at h3
+    have e5 : c.grpcws = true → c.fin = .wait → c.clientInterfered = false → c.close = .code 1000 → c.lastIsTrailer = true := by
+      intro a b ci d
+      cases hx : c.lastIsTrailer with
+      | true => rfl
+      | false => simp [a, b, ci, d, hx] at h4
+    have e6 : wsMustReportInvalid c = true →
+        (c.close = .code 1001 ∧ c.reasonCode = some "InvalidArgument") ∨ c.close = .code 1007 ∨ c.close = .code 1003 := by
+      intro hm
+      simp only [hm, Bool.true_and] at h5
+      by_cases hcond : ((c.close == .code 1001 && c.reasonCode == some "InvalidArgument") || c.close == .code 1007 || c.close == .code 1003) = true
+      · simp only [Bool.or_eq_true, Bool.and_eq_true, beq_iff_eq] at hcond
+        rcases hcond with (⟨a, b⟩ | a) | a
+        · exact Or.inl ⟨a, b⟩
+        · exact Or.inr (Or.inl a)
+        · exact Or.inr (Or.inr a)
+      · simp [hcond] at h5
+    exact ⟨e1, e2, e3, e4, e5, e6⟩
+
+/-! ### non-vacuity: the hypotheses are satisfiable and the partial operations are real -/
+
+-- `_metadata[x-a]` forwards key `x-a`; `_metadata[]` forwards the empty key; `_metadata[` is not a metadata key
+example : mdKey [] [95, 109, 101, 116, 97, 100, 97, 116, 97, 91, 120, 45, 97, 93] = .ok (.md [120, 45, 97]) := by decide
+example : mdKey [] [95, 109, 101, 116, 97, 100, 97, 116, 97, 91, 93] = .ok (.md []) := by decide
+example : mdKey [] [95, 109, 101, 116, 97, 100, 97, 116, 97, 91] = .ok .skip := by decide
+-- the Go operations really are partial: the same slice expression without the guard faults
+example : goSlice [91] 2 0 = .error .sliceBounds := by decide
+example : goIndex [] 0 = .error .indexOutOfRange := by decide
+example : goSlice [] 0 (-1) = .error .sliceBounds := by decide
+-- closing twice is a fault of the session model when the guard is removed (state: not closed, events closed)
+example : gwsSession false true [[1]] = .error .closeOfClosedChannel := by decide
+example : gwsSession false false [[1], [1], [1, 0, 0, 0, 0, 0, 7]] = .ok (true, true) := by decide
+-- a 7-byte frame delivers its last byte; a 6-byte frame delivers nothing (the empty message is dropped)
+example : gwsOnMessage false [0, 0, 0, 0, 0, 1, 9] = .ok { closed := false, delivered := some ([9], false), closeEvents := false } := by decide
+example : gwsOnMessage false [0, 0, 0, 0, 0, 0] = .ok { closed := false, delivered := none, closeEvents := false } := by decide
+-- "/a/b:fetch" with pattern verb "fetch" and a last segment that is only the verb
+example : routeSlices [47, 97, 47, 98, 58, 118] [118] = .ok (.comps [[97], [98]] [118]) := by decide
+example : routeSlices [47, 97, 47, 58, 118] [118] = .ok .notFound := by decide
+example : routeSlices [97] [118] = .ok .invalid := by decide
+-- "€€" cut after 4 bytes would split the second character: the cut moves back to its start
+example : backToRuneStart [226, 130, 172, 226, 130, 172] 4 = .ok 3 := by decide
+example : recvHTTPStatus false .bodyUnmarshal = some 400 := by decide
+example : recvHTTPStatus true .bodyPath = some 500 := by decide
+example : traverseFieldPath (fun _ _ => some (.message 0)) 0 [97, 46, 98, 46] = .ok (.field 0 [98]) := by decide
